@@ -51,10 +51,40 @@ fn c04_pointer_beyond_16k() -> bool {
     }
 }
 
+/// C03/C16: a name that exceeds 255 octets only after following a compression pointer must be rejected.
+fn c03_compressed_name_over_255() -> bool {
+    let mut ok = true;
+    for extra in [62usize, 63] {
+        let mut m: Vec<u8> = vec![0xbe, 0xef, 0, 0, 0, 2, 0, 0, 0, 0, 0, 0];
+        for n in [63u8, 63, 63] {
+            m.push(n);
+            m.extend(std::iter::repeat(b'a').take(n as usize));
+        }
+        m.extend([0, 0, 1, 0, 1]); // root, QTYPE A, QCLASS IN   (first name: 193 octets at offset 12)
+        m.push(extra as u8);
+        m.extend(std::iter::repeat(b'b').take(extra));
+        m.extend([0xc0, 0x0c, 0, 1, 0, 1]); // pointer to offset 12: 1 + extra + 193 octets in all
+        let total = 1 + extra + 193;
+        let r = Message::from_octets(&m);
+        println!("input: question name of 193 octets, second name = one {extra}-octet label + pointer to it ({total} octets in all)");
+        println!("required: {}", if total > 255 { "Err (name longer than 255 octets)" } else { "Ok" });
+        match &r {
+            Ok(msg) => {
+                let l = msg.questions[1].name.len;
+                println!("observed: Ok, second name has len {l}");
+                if l > 255 { ok = false; }
+            }
+            Err(e) => println!("observed: Err({e:?})"),
+        }
+    }
+    ok
+}
+
 fn main() {
     let w = std::env::args().nth(1).unwrap_or_default();
     let ok = match w.as_str() {
         "c04_pointer_beyond_16k" => c04_pointer_beyond_16k(),
+        "c03_compressed_name_over_255" => c03_compressed_name_over_255(),
         _ => {
             eprintln!("unknown witness `{w}`");
             exit(2)
